@@ -604,3 +604,131 @@ def _anc_fn(n):
         if isinstance(p, (ast.FunctionDef, ast.AsyncFunctionDef)):
             yield p
         p = parent(p)
+
+
+# --------------------------------------------------------------------------- index.negative-start
+
+
+def rule_negative_start(ctx: Ctx, rels: List[str]) -> None:
+    """index.negative-start: a position variable (an int, or a [row, column] pair) that starts at a negative literal and is then used, with
+    its initial value, inside an array subscript: numpy does not raise for index -1, it silently reads the *last* row / column.  Each
+    subscript that mentions the variable is folded with the initial values; a negative result is reported.  (A literal `a[-1]` is
+    deliberate and is not looked at.)"""
+    rels = _widen(ctx, rels)
+    repo = ctx.repo
+    scanned = hits = 0
+    for rel in rels:
+        m = repo.module(rel)
+        for fn in [f for f in ast.walk(m.tree) if isinstance(f, (ast.FunctionDef, ast.AsyncFunctionDef))]:
+            scanned += 1
+            inits = {}
+            for st in fn.body:
+                if isinstance(st, ast.Assign) and len(st.targets) == 1 and isinstance(st.targets[0], ast.Name):
+                    v = st.value
+                    def num(e):
+                        if isinstance(e, ast.Constant) and isinstance(e.value, int) and not isinstance(e.value, bool):
+                            return e.value
+                        if isinstance(e, ast.UnaryOp) and isinstance(e.op, ast.USub) and isinstance(e.operand, ast.Constant) and isinstance(e.operand.value, int):
+                            return -e.operand.value
+                        return None
+                    if isinstance(v, (ast.List, ast.Tuple)) and v.elts and all(num(e) is not None for e in v.elts):
+                        vals = [num(e) for e in v.elts]
+                        if any(x < 0 for x in vals):
+                            inits[st.targets[0].id] = (vals, st)
+                    elif num(v) is not None and num(v) < 0:
+                        inits[st.targets[0].id] = (num(v), st)
+            if not inits:
+                continue
+
+            def fold(e):
+                if isinstance(e, ast.Constant) and isinstance(e.value, int) and not isinstance(e.value, bool):
+                    return e.value
+                if isinstance(e, ast.Name) and e.id in inits and isinstance(inits[e.id][0], int):
+                    return inits[e.id][0]
+                if isinstance(e, ast.Subscript) and isinstance(e.value, ast.Name) and e.value.id in inits and isinstance(inits[e.value.id][0], list) \
+                        and isinstance(e.slice, ast.Constant) and isinstance(e.slice.value, int) and -len(inits[e.value.id][0]) <= e.slice.value < len(inits[e.value.id][0]):
+                    return inits[e.value.id][0][e.slice.value]
+                if isinstance(e, ast.BinOp) and isinstance(e.op, (ast.Add, ast.Sub)):
+                    a, b = fold(e.left), fold(e.right)
+                    if a is None or b is None:
+                        return None
+                    return a + b if isinstance(e.op, ast.Add) else a - b
+                return None
+            for x in ast.walk(fn):
+                if not isinstance(x, ast.Subscript) or (isinstance(x.value, ast.Name) and x.value.id in inits):
+                    continue
+                idx = x.slice.elts if isinstance(x.slice, ast.Tuple) else [x.slice]
+                for i, e in enumerate(idx):
+                    if isinstance(e, (ast.Constant, ast.UnaryOp, ast.Slice)):
+                        continue
+                    if not any(isinstance(y, ast.Name) and y.id in inits for y in ast.walk(e)):
+                        continue
+                    v = fold(e)
+                    hits += 1
+                    if v is not None and v < 0:
+                        var = next(y.id for y in ast.walk(e) if isinstance(y, ast.Name) and y.id in inits)
+                        ctx.touch(m, fn)
+                        ctx.fail("index.negative-start", m, x,
+                                 f"`{short(x)}`: with the initial value `{short(inits[var][1])}` the index `{short(e)}` is {v} on the first pass; numpy "
+                                 f"wraps a negative index around to the end of axis {i} instead of failing, so the walk starts by reading the last "
+                                 f"{'row' if i == 0 else 'column'}",
+                                 func=qualname(fn), construct=f"{qualname(fn)}: {short(e, 40)} starts at {v}")
+    ctx.ok_abstract("index.negative-start", f"{scanned} functions scanned, {hits} subscripts through a variable that starts negative")
+
+
+# --------------------------------------------------------------------------- elim.no-pivot
+
+
+def rule_elim_no_pivot(ctx: Ctx, rels: List[str]) -> None:
+    """elim.no-pivot: Gaussian / Gauss-Jordan elimination that takes the diagonal entry M[k, k] as the pivot of column k and adds row k
+    to other rows, without ever searching the column for a usable row and swapping it in.  That is only valid when every leading
+    principal minor is non-zero; an invertible matrix with a zero on the (running) diagonal is then declared singular or divided by
+    zero.  Reported when a loop over k uses M[k, k] / M[k] as pivot row, updates other rows from it, and contains no row exchange."""
+    rels = _widen(ctx, rels)
+    repo = ctx.repo
+    scanned = hits = 0
+    for rel in rels:
+        m = repo.module(rel)
+        for fn in [f for f in ast.walk(m.tree) if isinstance(f, (ast.FunctionDef, ast.AsyncFunctionDef))]:
+            scanned += 1
+            for lp in [l for l in ast.walk(fn) if isinstance(l, ast.For) and isinstance(l.target, ast.Name)]:
+                k = lp.target.id
+                diag = [x for x in ast.walk(lp) if isinstance(x, ast.Subscript) and isinstance(x.slice, ast.Tuple) and len(x.slice.elts) == 2
+                        and all(isinstance(e, ast.Name) and e.id == k for e in x.slice.elts) and isinstance(x.ctx, ast.Load)]
+                if not diag:
+                    continue
+                M = norm(diag[0].value)
+                # row updates: M[r] = f(M[r], M[k]) for another loop variable r
+                upd = []
+                for a in ast.walk(lp):
+                    if isinstance(a, (ast.Assign, ast.AugAssign)):
+                        t = a.targets[0] if isinstance(a, ast.Assign) else a.target
+                        if isinstance(t, ast.Subscript) and norm(t.value) == M and isinstance(t.slice, ast.Name) and t.slice.id != k:
+                            uses_pivot_row = any(isinstance(y, ast.Subscript) and norm(y.value) == M and isinstance(y.slice, ast.Name) and y.slice.id == k
+                                                 for y in ast.walk(a.value))
+                            if uses_pivot_row:
+                                upd.append(a)
+                if not upd:
+                    continue
+                hits += 1
+                # any row exchange inside the loop?
+                swap = False
+                for a in ast.walk(lp):
+                    if isinstance(a, ast.Assign) and isinstance(a.targets[0], ast.Subscript) and norm(a.targets[0].value) == M \
+                            and isinstance(a.targets[0].slice, (ast.List, ast.Tuple)) and isinstance(a.value, ast.Subscript) and isinstance(a.value.slice, (ast.List, ast.Tuple)):
+                        swap = True
+                    if isinstance(a, ast.Assign) and isinstance(a.targets[0], ast.Tuple) and isinstance(a.value, ast.Tuple) \
+                            and [norm(x) for x in a.targets[0].elts] == [norm(x) for x in reversed(a.value.elts)]:
+                        swap = True
+                    if isinstance(a, ast.Call) and (call_attr(a) or getattr(a.func, "id", "")) in ("row_swap", "tab_row_swap", "swap_rows", "swaprows"):
+                        swap = True
+                ctx.touch(m, fn)
+                if swap:
+                    ctx.ok("elim.no-pivot", m, lp, what=f"{qualname(fn)}: elimination with row exchange")
+                else:
+                    ctx.fail("elim.no-pivot", m, diag[0],
+                             f"{qualname(fn)} eliminates column `{k}` of `{M}` with the diagonal entry `{short(diag[0])}` as pivot and never exchanges rows: "
+                             f"an invertible matrix whose running diagonal hits a zero (a pivot-free column before a pivot column) is rejected as "
+                             f"singular; elimination without pivoting needs all leading principal minors to be non-zero",
+                             func=qualname(fn), construct=f"{qualname(fn)}: pivot {short(diag[0], 40)} without row exchange")
+    ctx.ok_abstract("elim.no-pivot", f"{scanned} functions scanned, {hits} diagonal-pivot elimination loops")
